@@ -68,6 +68,18 @@ func main() {
 		for _, rs := range c.Routes {
 			_, _ = f.Handle(rs.Method, rs.Pattern, h)
 		}
+		// non-canonical variants: a '.' or '..' element captured by a wildcard is an ordinary value for the matcher
+		var extra []route.Req
+		for _, q := range c.Reqs {
+			if k := strings.LastIndexByte(strings.TrimSuffix(q.Path, "/"), '/'); k >= 0 && r.IntN(4) == 0 {
+				dot := []string{".", "..", ".x"}[r.IntN(3)]
+				t := q
+				t.Path = q.Path[:k+1] + dot + q.Path[k+1+len(strings.TrimSuffix(q.Path, "/")[k+1:]):]
+				extra = append(extra, t)
+			}
+		}
+		c.Reqs = append(c.Reqs, extra...)
+		var prev *http.Request
 		for _, q := range c.Reqs {
 			if gen.HasEmptySegment(q.Path) {
 				continue
@@ -115,6 +127,17 @@ func main() {
 			if run.WantSample() {
 				run.Sample(map[string]any{"routes": c.RoutesString(), "request": q.String(), "matched": rte.Pattern(), "allocs_per_run": allocs})
 			}
+			// interleaved with the previous matching request of this router: pooled slices sized by one request must
+			// still serve the other without growing again
+			if prev != nil {
+				p0 := prev
+				pair := testing.AllocsPerRun(50, func() { f.ServeHTTP(w, p0); f.ServeHTTP(w, req) })
+				run.Count("measured_interleaved_pairs", 1)
+				if pair > 0 {
+					run.Violate("allocates-interleaved|"+c.RoutesString()+"|"+q.String(), fmt.Sprintf("two matching requests served alternately allocate %.2f objects per pair although each alone allocates nothing\nroutes: %s\nrequests: %s %s%s and %s", pair, c.RoutesString(), p0.Method, p0.Host, p0.URL.Path, q), c)
+				}
+			}
+			prev = req
 		}
 	}
 	run.Count("measured_requests", int64(measured))
